@@ -79,7 +79,7 @@ def exact_family(name, reg0, ids, seeds):
             return {"outcome": "exact", "violations": []}       # the value depends on a draw that is not tied to the seed: nothing to compare (the symbolic families judge determinism)
         case = {"op": "scale_example", "reg": regdsl.encode(reg0).hex(), "id": str(i), "seed": str(seed), "nseeds": "1"}
         return {"outcome": "exact", "violations": [], "validate": dict(case, expect={"value": got}),
-                "realcheck": [{"op": "scale_example", "reg": regdsl.encode(reg0).hex(), "id": str(i), "seed": str(seed), "nseeds": "24"}]}
+                "realcheck": [{"op": "scale_example", "reg": regdsl.encode(reg0).hex(), "id": str(i), "seed": str(seed), "nseeds": "24", "_must": reg0[i]["def"] == ("primitive", "Char")}]}
     return Family(name, mk, run, target_prefixes=16, setup=setup)
 
 def families(eng, tier, seed):
